@@ -23,8 +23,8 @@ check("C08",
       passes=[dict(name="C08", src=["harness/C08.cpp"] + ENV, variant="fast", lib=False,
                    shards={"quick": 16, "thorough": 16})],
       rule="every permutation of n distinct keys (n<=8 quick, n<=10 thorough) and every duplicate-bearing sequence "
-           "(len<=7 over 4 keys, len<=6 over 5 keys; thorough len<=8) is inserted into both tree flavours under three "
-           "comparators; after EVERY insertion: BST order, black root, no red-red, equal black height, parent links, "
+           "(len<=7 over 4 keys, len<=6 over 5 keys; thorough len<=8) is inserted into both tree flavours under four "
+           "comparators (integers; addresses; lexicographic sequences; a 64-bit difference far outside the range of int); after EVERY insertion: BST order, black root, no red-red, equal black height, parent links, "
            "height<=2log2(n+1), size, every inserted key found at its node, every gap/end key absent, equal key returns "
            "the existing element without changing shape; then adversarial long orders up to 2*10^4 (2*10^5 thorough) keys. "
            "distinct_nontrivial = distinct (shape,colouring) pairs reached.",
